@@ -27,14 +27,13 @@ def run(ctx: RuleContext, p: Program) -> None:
     ts = T.TS(p)
     ctx.try_rule(T.rule_ts_idx, ts, 'TS-IDX')
     ctx.try_rule(T.rule_ts_handle, ts, 'TS-HANDLE')
-    ctx.try_rule(T.rule_ts_detach, ts, 'TS-DETACH')
     ctx.try_rule(T.rule_len, ts, 'LEN')
     ctx.try_rule(T.rule_own_store, ts, 'OWN-STORE')
     ctx.try_rule(T.rule_ts_gate, ts, 'TS-GATE')
     from . import storeforms
-    ctx.try_rule(storeforms.rule_nav_form, ts, 'NAV-FORM')
-    ctx.try_rule(storeforms.rule_build_part, ts, 'BUILD-PART')
-    from . import tsseq
+    from . import tsseq, possem
+    ctx.try_rule(possem.rule_nav_sem, ts, 'NAV-SEM')
+    ctx.try_rule(possem.rule_build_sem, ts, 'BUILD-SEM')
     ctx.try_rule(tsseq.rule_ts_seq, ts, "TS-SEQ", 4 if ctx.tier == "quick" else 7)
     ctx.not_decided += ['arithmetic of get_prev/get_next/iter/get_index/get_position',
                         'split / merge thresholds', 'agreement with a reference list over operation histories']
